@@ -44,7 +44,7 @@ func init() {
 		ThoroughConfigs: []string{"elpscheck"},
 	})
 	registerProp(PropSpec{ID: "C01",
-		Rules: []string{"ERR.same"},
+		Rules: []string{"ERR.same", "ERR.discarded"},
 		Explanation: "error discipline of the evaluator kernel",
 		Assumptions: []string{"go/types + go/cfg model of the working tree"},
 		ThoroughConfigs: []string{"elpscheck"},
@@ -65,6 +65,12 @@ func init() {
 		Rules: []string{"MUT.mutators", "MUT.map", "VIEW.producers", "MAP.backing-fresh", "MUT.field", "MUT.elem", "MUT.grow", "MUT.view", "MAP.entries-sorted"},
 		Explanation: "who may change a value in place",
 		Assumptions: []string{"go/types + go/cfg + go/ssa model of the working tree"},
+		ThoroughConfigs: []string{"elpscheck"},
+	})
+	registerProp(PropSpec{ID: "C08",
+		Rules: []string{"PAIR.package", "PAIR.load-package", "CONST.guard", "PKG.keyword-refused", "PKG.use-all-exports", "PKG.new-uses-lang", "CENSUS.LEnv.scope", "CENSUS.Package.symbols", "ERR.discarded"},
+		Explanation: "package switching, constants guard and complete imports",
+		Assumptions: []string{"go/types + go/cfg model of the working tree"},
 		ThoroughConfigs: []string{"elpscheck"},
 	})
 }
